@@ -146,6 +146,12 @@ pub struct Pkg {
     pub srcs: Vec<String>,
     /// two tests of one module have the same name ("the name must be unique")
     pub dup_names: bool,
+    /// the script has a type error: it must be rejected with a report
+    pub ill_typed: bool,
+    /// also run parse + typecheck alone (what `roto check` does)
+    pub typecheck_alone: bool,
+    /// further fields of the written-out case
+    pub extra: Value,
 }
 
 pub const DECOY_BASE: i32 = 900;
@@ -254,7 +260,7 @@ pub fn build(shape: usize, flavour: usize, placement: &[u64], outcomes: u64) -> 
         }
         srcs.push(s);
     }
-    Pkg { shape, flavour, tests, fns, srcs, dup_names }
+    Pkg { shape, flavour, tests, fns, srcs, dup_names, ill_typed: false, typecheck_alone: false, extra: Value::Null }
 }
 
 impl Pkg {
@@ -286,6 +292,8 @@ impl Pkg {
             "fn_after": fl.fn_after,
             "decoys": fl.decoys,
             "dup_names": self.dup_names,
+            "ill_typed": self.ill_typed,
+            "family": self.extra,
         })
     }
 }
@@ -379,5 +387,33 @@ impl CallerCase {
             "fnkind": format!("{:?}", self.fnkind),
             "accept": self.accept,
         })
+    }
+}
+
+// ------------------------------------------------------------------ bodies
+
+/// The package of the body family: `sub` = (body, position) of placement `pl`
+pub fn build_body_pkg(pl: usize, sub: u64) -> Pkg {
+    use crate::bodies;
+    let d = vcore::util::decode(sub, &[bodies::N_BODIES as u64, bodies::N_POSITIONS as u64]);
+    let (b, pos) = (d[0] as usize, d[1] as usize);
+    let (shape, module, other) = bodies::PLACEMENTS[pl];
+    let body = bodies::body(b);
+    let mut srcs = vec![other.to_string(); SHAPES[shape].len()];
+    srcs[module] = bodies::file(&body, pos, &|i| format!("e({i});"));
+    let mut tests = vec![TestSpec { idx: 0, module, name: "body".into(), accept: body.pass, style: Style::Direct }];
+    if bodies::has_after_test(pos) {
+        tests.push(TestSpec { idx: 1, module, name: bodies::AFTER_TEST.into(), accept: true, style: Style::Direct });
+    }
+    Pkg {
+        shape,
+        flavour: 0,
+        tests,
+        fns: vec![],
+        srcs,
+        dup_names: false,
+        ill_typed: body.ill_typed,
+        typecheck_alone: true,
+        extra: bodies::describe_extra(&body, pos),
     }
 }
